@@ -112,6 +112,7 @@ type Run struct {
 	exhaustive   bool
 	engines      []Engine
 	violSeen     map[string]bool
+	fallback     any // a trivial case, used as sample only if no non-trivial one was seen
 }
 
 const (
@@ -219,6 +220,9 @@ func (r *Run) Case(engine, ntKey string, sample func() any, classes ...string) {
 	}
 	if ntKey == "" {
 		r.classes[engine+"/trivial"]++
+		if sample != nil && len(r.first) == 0 && r.fallback == nil {
+			r.fallback = map[string]any{"engine": engine, "trivial": true, "case": sample()}
+		}
 		return
 	}
 	h := hash64(engine, ntKey)
@@ -600,6 +604,9 @@ func (r *Run) writeEvidence(meta Meta) {
 	samples := append([]any{}, r.first...)
 	for _, s := range r.small {
 		samples = append(samples, s.v)
+	}
+	if len(samples) == 0 && r.fallback != nil {
+		samples = append(samples, r.fallback)
 	}
 	cov := map[string]any{
 		"evaluations":         r.evals.Load(),
